@@ -753,7 +753,7 @@ Proof. split; cbn; [left; reflexivity|vm_compute; reflexivity|vm_compute; reflex
 
 Lemma step_good e c o : env_ok e -> good e c -> good e (fst (step e c o)).
 Proof.
-  intros He G. destruct o as [ls| |]; cbn [step].
+  intros He G. destruct o as [ls| | | |]; cbn [step]; try exact G.
   - apply set_loop_good; assumption.
   - unfold dev_up. destruct (c_up c); [exact G|].
     assert (G1 : good e (set_up c true)) by (destruct G; split; cbn; assumption).
@@ -1108,8 +1108,7 @@ Proof.
   - vm_compute in E. inversion E; subst. vm_compute in V. discriminate.
 Qed.
 
-(* Model and specification agree (statement only; evaluated on every run by
-   the correspondence check, see notes/C09.md). *)
+(* Model and specification agree: proved in Uapi/Refine.v (model_refines_spec). *)
 Definition model_refines_spec_statement : Prop :=
   forall e ops,
     outs (step e) fresh ops = outs (sem_step e) afresh ops /\
